@@ -772,10 +772,10 @@ def r11_rounding_epsilon(ck, P):
         ck.incomplete(R, 'no coordinate-to-index conversion found')
 
 
-def r12_wrap_is_a_loop(ck, P):
+def r12_wrap_is_a_loop(ck, P, rid='C04-R9'):
     """NORMAL repeat in the nearest scanline kernels: the coordinate is brought back into the tile by a loop, for any step size"""
     from .factors import _loops_of
-    R = ck.rule('C04-R9', 'in every scaled nearest-neighbour scanline kernel the subtraction that wraps the source coordinate back into the tile (vx -= width of the tile) sits in a loop of its own (while (vx >= 0)): a single conditional subtraction lets vx grow without bound when the step exceeds the tile width, and pixels are then read further and further past the source', floor=6)
+    R = ck.rule(rid, 'in every scaled nearest-neighbour scanline kernel the subtraction that wraps the source coordinate back into the tile (vx -= width of the tile) sits in a loop of its own (while (vx >= 0)): a single conditional subtraction lets vx grow without bound when the step exceeds the tile width, and pixels are then read further and further past the source', floor=6)
     n = 0
     for un, u in P.units.items():
         L = None
@@ -843,14 +843,24 @@ def r13_weight_vector_tracks_position(ck, P, rid='C08-R13'):
     """SSE2 bilinear scanlines keep the source position twice: the scalar vx (which pixel pair is fetched) and the 16-bit lanes of xmm_x
     (the horizontal weights).  Relational induction over the paired phis: they start equal and advance by the same number of unit_x on
     every edge, and each interpolation takes its weights and its pixels at the same advance."""
-    R = ck.rule(rid, 'in every SSE2 bilinear scanline the packed weight vector and the scalar source position start at the same coordinate, advance by the same multiple of unit_x along every control-flow edge between their paired phis, and every interpolation reads its weights and its two pixel pairs at the same advance', floor=5)
-    u = P.units.get('pixman-sse2.c')
-    if u is None:
-        ck.incomplete(R, 'pixman-sse2.c is not part of the build'); return
-    for f in u.functions.values():
+    R = ck.rule(rid, 'in every SSE2 and MMX bilinear scanline the packed weight vector and the scalar source position start at the same coordinate, advance by the same multiple of unit_x along every control-flow edge between their paired phis, and every interpolation reads its weights and its two pixel pairs at the same advance', floor=8)
+    from .. import build, facts as _facts
+    cfgs = []
+    if 'pixman-sse2.c' in P.units:
+        cfgs.append((P.units['pixman-sse2.c'], '_mm_set_epi16', 8, '_mm_add_epi16', '_mm_srli_epi16', '<2 x i64>', True))
+    if 'pixman-mmx.c' in P.units:
+        # __m64 values are coerced through memory at -O0: the scalar-replaced IR of that unit has them in SSA form
+        PS = _facts.Program(build.library_facts('S', only={'pixman-mmx.c'}))
+        cfgs.append((PS.units['pixman-mmx.c'], '_mm_set_pi16', 4, '_mm_add_pi16', '_mm_srli_pi16', '<1 x i64>', False))
+    if not cfgs:
+        ck.incomplete(R, 'neither pixman-sse2.c nor pixman-mmx.c is part of the build'); return
+    for u, SETFN, NL, ADDFN, SRLFN, VTY, COMPL in cfgs:
+      def want_lane(j, form, compl_form):
+          return form if (not COMPL or j % 2 == 1) else compl_form
+      for f in u.functions.values():
         sets = {}
         for x in f.insts():
-            if x.op == 'call' and x.callee == '_mm_set_epi16' and len(x.a) == 8:
+            if x.op == 'call' and x.callee == SETFN and len(x.a) == NL:
                 sets[x.i] = [_lin(f, a) for a in reversed(x.a)]        # lane 0 first
         # advance vectors: lanes +k*unit, -k*unit, ...
         adv = {}
@@ -858,9 +868,27 @@ def r13_weight_vector_tracks_position(ck, P, rid='C08-R13'):
             if None in L or not L[1] or len(L[1]) != 1 or 1 in L[1]:
                 continue
             (root, k), = L[1].items()
-            # _mm_set_epi16 (u, -u, ...): odd lanes carry the position, even lanes its complement
-            if all(L[j] == ({root: k} if j % 2 == 1 else {root: -k}) for j in range(8)):
+            # SSE2: _mm_set_epi16 (u, -u, ...): odd lanes carry the position, even lanes its complement; MMX: every lane carries it
+            if all(L[j] == want_lane(j, {root: k}, {root: -k}) for j in range(NL)):
                 adv[i] = (root, k)
+        if not adv:
+            continue
+        # only splats that are really added to a loop-carried vector are advances (MMX also splats the vertical weights)
+        def _strip(o_):
+            y_ = f.v(o_)
+            while y_ is not None and y_.op == 'bitcast':
+                o_ = y_.a[0]; y_ = f.v(o_)
+            return o_
+        used = set()
+        for x in f.insts():
+            if x.op == 'phi' and x.ty == VTY:
+                for a in x.a:
+                    y = f.v(_strip(a))
+                    if y is not None and y.op == 'call' and y.callee == ADDFN and len(y.a) == 2:
+                        for o_ in (_strip(y.a[0]), _strip(y.a[1])):
+                            if o_[0] == 'v' and o_[1] in adv:
+                                used.add(o_[1])
+        adv = {k_: v_ for k_, v_ in adv.items() if k_ in used}
         if not adv:
             continue
         # weight family: values reached from an _mm_add_epi16 (X, advance)
@@ -872,8 +900,13 @@ def r13_weight_vector_tracks_position(ck, P, rid='C08-R13'):
                 x = f.v(o)
                 if x is None:
                     return None
-                if x.op == 'call' and x.callee == '_mm_add_epi16' and len(x.a) == 2:
-                    a0, a1 = x.a
+                if x.op == 'call' and x.callee == ADDFN and len(x.a) == 2:
+                    def strip(o_):
+                        y_ = f.v(o_)
+                        while y_ is not None and y_.op == 'bitcast':
+                            o_ = y_.a[0]; y_ = f.v(o_)
+                        return o_
+                    a0, a1 = strip(x.a[0]), strip(x.a[1])
                     if a1[0] == 'v' and a1[1] in adv:
                         pass
                     elif a0[0] == 'v' and a0[1] in adv:
@@ -910,7 +943,7 @@ def r13_weight_vector_tracks_position(ck, P, rid='C08-R13'):
             return None
 
         xphis = []; fam = set(); grew = True
-        vphis = [x for x in f.insts() if x.op == 'phi' and x.ty == '<2 x i64>']
+        vphis = [x for x in f.insts() if x.op == 'phi' and x.ty == VTY]
         while grew:
             grew = False
             for x in vphis:
@@ -951,7 +984,7 @@ def r13_weight_vector_tracks_position(ck, P, rid='C08-R13'):
                 # find the closest scalar phi to explain what differs
                 best = None
                 for V in X.bb.insts:
-                    if V.op == 'phi' and V.ty == 'i64':
+                    if V.op == 'phi' and V.ty.startswith('i') and V.ty != 'i1':
                         diffs = []
                         for a, b, p_ in zip(V.a, X.a, X.d.get('bb', [])):
                             vb = vbase(a, unit); xb = xbase(b)
@@ -983,7 +1016,7 @@ def r13_weight_vector_tracks_position(ck, P, rid='C08-R13'):
                         if vl is not None:
                             comp = {k: -v for k, v in vl.items()}; comp[1] = comp.get(1, 0) - 1
                             comp = {k: v for k, v in comp.items() if v}
-                        if vl is None or any(L[j] != (vl if j % 2 == 1 else comp) for j in range(8)):
+                        if vl is None or any(L[j] != want_lane(j, vl, comp) for j in range(NL)):
                             fine = False
                     elif xb[0] in pair:
                         if vb[0] not in pair[xb[0]]:
@@ -1003,7 +1036,7 @@ def r13_weight_vector_tracks_position(ck, P, rid='C08-R13'):
         for b in f.blocks:
             wu = []; pu = set()
             for x in b.insts:
-                if x.op == 'call' and x.callee == '_mm_srli_epi16':
+                if x.op == 'call' and x.callee == SRLFN:
                     xb = xbase(x.a[0])
                     if xb is not None and (xb[0] in pair or xb[0] in sets):
                         wu.append((xb, x))
